@@ -28,8 +28,12 @@ type c19Cfg struct {
 	// Fallback: the client is configured with WithTLSPortPolicy (port 587 with fallback to 25) and the first dial
 	// is refused, so the connection under test is the one of the fallback dial
 	Fallback bool `json:"fallback,omitempty"`
-	Msgs     int  `json:"msgs,omitempty"`   // DialAndSend batch size (default 1)
-	BadMsg   int  `json:"badmsg,omitempty"` // DialAndSend: 1 = message without recipients, 2 = 8bit message (server has no... it has 8BITMIME) with failing body writer, 3 = nil message only
+	Msgs     int  `json:"msgs,omitempty"` // DialAndSend batch size (default 1)
+	// Redial: history — the same Client has already dialled successfully (that earlier connection was not closed by
+	// the caller); the judged call is the next DialWithContext / DialAndSend. Whatever the client does with the
+	// earlier connection meets {ok, 5yz, drop} there.
+	Redial bool `json:"redial,omitempty"`
+	BadMsg int  `json:"badmsg,omitempty"` // DialAndSend: 1 = message without recipients, 2 = 8bit message (server has no... it has 8BITMIME) with failing body writer, 3 = nil message only
 }
 
 type c19Case struct {
@@ -100,7 +104,33 @@ func c19Exec(r *vf.Run, cfg c19Cfg, c *vf.Chooser) (keys, whats []string) {
 	sess.NewAuth = saslFactory(conn, c19User, c19Pass, trace)
 	sess.Script = stdScriptB(c, 6, func() { conn.BreakWrites = true })
 	dials := 0
+	var prev *refsmtp.Conn
+	prevLive := false // once the first dial has succeeded the earlier connection answers by choice
+	if cfg.Redial {
+		ps := &refsmtp.Session{Host: hx.Host, Caps: caps}
+		prev = refsmtp.NewConn(ps)
+		prev.TLSConfig = hx.ServerTLS(hx.Mat().Good)
+		prev.ImplicitTLS = cfg.TLS == 3
+		ps.NewAuth = saslFactory(prev, c19User, c19Pass, &sasl.Trace{})
+		ps.Script = func(s *refsmtp.Session, ev *refsmtp.Event, def refsmtp.Action) refsmtp.Action {
+			if !prevLive || def.Kind != refsmtp.ActReply {
+				return def
+			}
+			switch c.Choose("earlier-connection:"+ev.Pos(), 3) {
+			case 1:
+				return refsmtp.Action{Kind: refsmtp.ActReply, Code: 554, Text: []string{"5.0.0 no"}}
+			case 2:
+				return refsmtp.Action{Kind: refsmtp.ActDrop}
+			}
+			return def
+		}
+	}
+	handed := false
 	rig := &hx.Rig{Mk: func(n int) *refsmtp.Conn {
+		if prev != nil && n == 0 {
+			return prev
+		}
+		handed = true
 		dials++
 		if cfg.Fallback && dials == 1 {
 			return nil // primary port refused
@@ -144,6 +174,13 @@ func c19Exec(r *vf.Run, cfg c19Cfg, c *vf.Chooser) (keys, whats []string) {
 		r.HarnessError("C19 NewClient: %v", err)
 		return
 	}
+	if cfg.Redial {
+		if err := cl.DialWithContext(context.Background()); err != nil {
+			r.HarnessError("C19 %+v: the fault-free first dial failed: %v", cfg, err)
+			return
+		}
+		prevLive = true
+	}
 	var opErr error
 	pan, pw := vf.Guard(func() {
 		if cfg.Send {
@@ -174,7 +211,7 @@ func c19Exec(r *vf.Run, cfg c19Cfg, c *vf.Chooser) (keys, whats []string) {
 		return
 	}
 	protoStates(r, sess.Transcript)
-	opened := len(rig.Conns) > 0 && dials > 0
+	opened := handed && dials > 0
 	closed := conn.ClientClosed()
 	// where did it fail? the last exchange that was not a plain success
 	failAt := "local"
@@ -233,7 +270,7 @@ func init() {
 	vf.Register(&vf.Check{
 		ID: "C19", Title: "no connection outlives a failed operation",
 		Run: func(r *vf.Run) {
-			r.SetRule("reply ∈ {ok, 4yz, 5yz, drop, garbage, ok-but-the-next-client-write-fails} at every step of dial and dial-and-send (greeting, EHLO, HELO fallback, STARTTLS, each AUTH step, NOOP, MAIL, RCPT, DATA, end-of-data, RSET, QUIT) up to the deviation bound × TLS policy {mandatory, opportunistic, none, implicit} × handshake {ok, wrong-name certificate, garbage, drop} × STARTTLS advertised or not × auth {none, PLAIN, LOGIN, CRAM-MD5, SCRAM-SHA-256, XOAUTH2, auto-discover, mechanism not offered, HELO name containing CR, SCRAM-SHA-256-PLUS}; oracle: Close() was called on the fake connection by the time the failing call returns; distinct by (configuration, script)")
+			r.SetRule("reply ∈ {ok, 4yz, 5yz, drop, garbage, ok-but-the-next-client-write-fails} at every step of dial and dial-and-send (greeting, EHLO, HELO fallback, STARTTLS, each AUTH step, NOOP, MAIL, RCPT, DATA, end-of-data, RSET, QUIT) up to the deviation bound × TLS policy {mandatory, opportunistic, none, implicit} × handshake {ok, wrong-name certificate, garbage, drop} × STARTTLS advertised or not × auth {none, PLAIN, LOGIN, CRAM-MD5, SCRAM-SHA-256, XOAUTH2, auto-discover, mechanism not offered, HELO name containing CR, SCRAM-SHA-256-PLUS}; plus the same calls on a Client that is already connected (whatever it then does with the earlier connection is answered {ok, 5yz, drop}); oracle: Close() was called on the fake connection by the time the failing call returns; distinct by (configuration, script)")
 			r.Assume("'closed' means net.Conn.Close was called on the connection the dial function handed out (or on a TLS wrapper around it)")
 			bound := 2
 			if r.Thorough {
@@ -262,6 +299,10 @@ func init() {
 								cfgs = append(cfgs, c19Cfg{TLS: tlsm, Auth: a, Send: send, HSBad: hs, NoSTL: nostl})
 								if tlsm == 1 && hs == 0 && (a == 0 || a == 1) {
 									cfgs = append(cfgs, c19Cfg{TLS: tlsm, Auth: a, Send: send, HSBad: hs, NoSTL: nostl, Fallback: true})
+								}
+								if hs == 0 && !nostl && a <= 2 {
+									// history: the Client is already connected when the judged call starts
+									cfgs = append(cfgs, c19Cfg{TLS: tlsm, Auth: a, Send: send, Redial: true})
 								}
 								if send && tlsm == 2 && a == 0 {
 									for bm := 1; bm <= 3; bm++ {
